@@ -21,6 +21,7 @@ import (
 	"strings"
 	"time"
 
+	"github.com/bufbuild/buf/private/bufpkg/bufcas"
 	"github.com/bufbuild/buf/private/bufpkg/bufmodule"
 	"github.com/bufbuild/buf/private/bufpkg/bufmodule/bufmodulecache"
 	"github.com/bufbuild/buf/private/bufpkg/bufmodule/bufmodulestore"
@@ -64,7 +65,15 @@ func (r *registry) GetModuleDatasForModuleKeys(ctx context.Context, keys []bufmo
 		return nil, d.Err("registry")
 	}
 	if p := sched.ProcOf(ctx); p != nil {
-		for _, n := range names {
+		for i, n := range names {
+			// requests that pin another digest than the module has (a deliberate workload item) are not counted
+			if mod := r.m.u.ByCommit(keys[i].CommitID()); mod != nil {
+				want, _ := mod.Key.Digest()
+				got, _ := keys[i].Digest()
+				if !bufmodule.DigestEqual(want, got) {
+					continue
+				}
+			}
 			r.calls[p.Name+"|"+n]++
 		}
 	}
@@ -521,7 +530,9 @@ func (m *csim) checkCommit(who, site string, key bufmodule.ModuleKey, c bufmodul
 	if err != nil {
 		return false, err
 	}
-	if !ct.Equal(mockTime) {
+	// the create time is stored beside the digest, not under it: after tampering with the commit
+	// file only the digest is comparable
+	if idx := m.indexOf(m.u.ByCommit(key.CommitID())); !ct.Equal(mockTime) && !m.taintedCommit[idx] {
 		m.violate("no-wrong-content", site, "%s: commit of %s served with create time %v without error", who, key.FullName().Name(), ct)
 		return false, nil
 	}
@@ -603,7 +614,7 @@ func (m *csim) drawScript() []action {
 	n := 1 + m.tp.Draw("nactions", 3)
 	var out []action
 	for i := 0; i < n; i++ {
-		a := action{kind: tape.Pick(m.tp, "akind", []string{"provide", "provide", "get", "put", "commits"})}
+		a := action{kind: tape.Pick(m.tp, "akind", []string{"provide", "provide", "get", "put", "commits", "wrongpin"})}
 		// non-empty subset of modules, in tape order
 		perm := m.tp.Perm("amods", len(m.u.Modules))
 		k := 1 + m.tp.Draw("anmods", len(m.u.Modules))
@@ -619,17 +630,61 @@ type procResult struct {
 	errs     int
 }
 
-func (m *csim) spawn(script []action, strict bool) *procResult {
-	m.procSeq++
-	name := fmt.Sprintf("p%d", m.procSeq)
+// procState is what one OS process holds: its provider, store and locker. A long-running
+// process (an editor integration, an agent) keeps them across epochs, i.e. across tampering.
+type procState struct {
+	name           string
+	proc           *sched.Proc
+	store          bufmodulestore.ModuleDataStore
+	provider       bufmodule.ModuleDataProvider
+	commitProvider bufmodule.CommitProvider
+	provided       map[int]bool
+}
+
+func (m *csim) newProcess(name string) *procState {
 	proc := m.s.Proc(name)
-	res := &procResult{name: name, provided: map[int]bool{}}
 	bucket := &simfs.Bucket{S: m.s, U: m.raw, Name: "c", Hooks: m.hooks}
 	locker := simlock.NewLocker(m.table, proc)
 	store := bufmodulestore.NewModuleDataStore(slogext.NopLogger, bucket, locker, m.storeOpts()...)
-	provider := bufmodulecache.NewModuleDataProvider(slogext.NopLogger, m.reg, store)
 	cbucket := &simfs.Bucket{S: m.s, U: m.craw, Name: "k", Hooks: m.hooks}
-	commitProvider := bufmodulecache.NewCommitProvider(slogext.NopLogger, m.reg, bufmodulestore.NewCommitStore(slogext.NopLogger, cbucket))
+	return &procState{
+		name: name, proc: proc, store: store,
+		provider:       bufmodulecache.NewModuleDataProvider(slogext.NopLogger, m.reg, store),
+		commitProvider: bufmodulecache.NewCommitProvider(slogext.NopLogger, m.reg, bufmodulestore.NewCommitStore(slogext.NopLogger, cbucket)),
+		provided:       map[int]bool{},
+	}
+}
+
+func (m *csim) spawn(script []action, strict bool) *procResult {
+	m.procSeq++
+	return m.spawnOn(m.newProcess(fmt.Sprintf("p%d", m.procSeq)), script, strict)
+}
+
+// wrongPin returns a key for the module's name and commit that pins ANOTHER digest.
+func (m *csim) wrongPin(idx int) bufmodule.ModuleKey {
+	mod := m.u.Modules[idx]
+	right, _ := mod.Key.Digest()
+	value := append([]byte(nil), right.Value()...) // Value() hands out the digest's own slice
+	value[len(value)-1] ^= 0x01
+	cas, err := bufcas.NewDigest(value)
+	if err != nil {
+		panic(err)
+	}
+	wrong, err := bufmodule.NewDigest(right.Type(), cas)
+	if err != nil {
+		panic(err)
+	}
+	key, err := bufmodule.NewModuleKey(mod.Key.FullName(), mod.CommitID, func() (bufmodule.Digest, error) { return wrong, nil })
+	if err != nil {
+		panic(err)
+	}
+	return key
+}
+
+func (m *csim) spawnOn(ps *procState, script []action, strict bool) *procResult {
+	name, proc := ps.name, ps.proc
+	store, provider, commitProvider := ps.store, ps.provider, ps.commitProvider
+	res := &procResult{name: name, provided: ps.provided}
 	m.s.Spawn(proc, func(ctx context.Context) {
 		for ai, a := range script {
 			keys := m.u.Keys(a.mods)
@@ -693,6 +748,30 @@ func (m *csim) spawn(script []action, strict bool) *procResult {
 						}
 					}
 				}
+			case "wrongpin":
+				// the same name and commit, pinned to another digest: nothing may be served without an error
+				var wkeys []bufmodule.ModuleKey
+				for _, i := range a.mods {
+					wkeys = append(wkeys, m.wrongPin(i))
+				}
+				datas, err := provider.GetModuleDatasForModuleKeys(ctx, wkeys)
+				if proc.Dead {
+					return
+				}
+				m.s.Event("%s wrongpin %v -> err=%v", name, a.mods, err != nil)
+				if err != nil {
+					continue
+				}
+				for _, md := range datas {
+					c, _ := consume(ctx, md)
+					if proc.Dead {
+						return
+					}
+					if c.haveFiles || c.haveDeps {
+						m.violate("no-wrong-content", site, "%s: content was served without error for a key that pins another digest than the cached / registry content has", who)
+					}
+				}
+				m.s.Probe("wrong-pin-requested")
 			case "commits":
 				var commits []bufmodule.Commit
 				var err error
@@ -1101,11 +1180,30 @@ func Run(tp *tape.Tape, env *engine.Env) *engine.Outcome {
 	s.Event("case layout=%s digest=%v modules=%d mode=%d", layout, u.DigestType, len(u.Modules), mode)
 
 	epochs := 1 + tp.Draw("epochs", 3)
+	useDaemon := tp.Draw("daemon", 2) == 1
+	var daemon *procState
 	for e := 0; e < epochs; e++ {
 		nprocs := 1 + tp.Draw("nprocs", 3)
 		var results []*procResult
 		for i := 0; i < nprocs; i++ {
 			results = append(results, m.spawn(m.drawScript(), strict))
+		}
+		if useDaemon {
+			// a long-running process: the same provider and store objects live on across epochs
+			if daemon == nil || daemon.proc.Dead {
+				m.procSeq++
+				daemon = m.newProcess(fmt.Sprintf("d%d", m.procSeq))
+			}
+			var ds []action
+			for _, a := range m.drawScript() {
+				if a.kind == "provide" || a.kind == "get" || a.kind == "wrongpin" {
+					ds = append(ds, a)
+				}
+			}
+			if len(ds) > 0 {
+				m.spawnOn(daemon, ds, strict)
+				m.s.Probe("long-running-process-epoch")
+			}
 		}
 		s.Run()
 		if s.Deadlocked {
